@@ -1,5 +1,6 @@
 import MdIt.InlineLeaf
 import MdIt.InlineLink
+import MdIt.InlineImage
 import MdIt.Drv.Inline
 /-! Driver: `inlinex <maxNesting> <rules> <fragjoin> <textjoin> <html> <entities> <reformat> <normtext> <src>` — as `inline`, with the
 rules `a` (autolink) `h` (html_inline) `y` (entity); the three tables are `key=value,…` pairs (`~` = empty) of what the harness
@@ -94,6 +95,37 @@ def inlineLLine (toks : List String) : String :=
         linkChain drvCls ext lx (has 'n') (has 'e') (has 'b') (has 's') (has 'm') (has 'l') (has 'a') (has 'h') (has 'y') m (m.toNat + 2)
       else (linkChain drvCls ext lx (has 'n') (has 'e') (has 'b') (has 's') (has 'm') (has 'l') (has 'a') (has 'h') (has 'y') m (m.toNat + 2)).drop 1
     match inlineParse rules (linkPost (has 's') (has 'm')) (decBool fj) m (decChars src) with
+    | .error e => "e:" ++ e.tag
+    | .ok ts =>
+      let ts' := if decBool tj then joinToks [] ts else ts
+      "ok " ++ " ".intercalate (encToks ts')
+  | _ => "bad-request"
+
+end MdIt.Drv
+
+namespace MdIt.Drv
+open MdIt.Proto
+
+/-- `inlinei …` — the arguments of `inlinel`, with the rule `i` (image): eleven of the twelve inline rules.  The budget covers
+    `maxNesting + 2` re-entries for every image nesting the source has room for. -/
+def inlineILine (toks : List String) : String :=
+  match toks with
+  | [mn, rs, fj, tj, html, ents, refm, ntxt, hasRefs, storeLabels, refHref, refTitle, normRef, src] =>
+    let ext := mkExt (decBool html) (decPairs ents) (decPairs refm) (decPairs ntxt)
+    let hrefs := decPairs refHref
+    let titles := decPairs refTitle
+    let nrefs := decPairs normRef
+    let lx : LExt := { hasRefs := decBool hasRefs, storeLabels := decBool storeLabels
+                       normRef := fun l => (lookupC nrefs l).getD missMark
+                       refs := fun l => match lookupC hrefs l with
+                         | some h => some (h, (lookupC titles l).getD [])
+                         | none => none }
+    let has := fun (c : Char) => rs.toList.contains c
+    let m := mn.toInt!
+    let cs := decChars src
+    let rules := imgChain drvCls ext lx (has 't') (has 'n') (has 'e') (has 'b') (has 's') (has 'm') (has 'l') (has 'i') (has 'a') (has 'h')
+      (has 'y') (decBool fj) m ((m.toNat + 2) * (cs.length / 4 + 2))
+    match inlineParse rules (imgPost (has 's') (has 'm')) (decBool fj) m cs with
     | .error e => "e:" ++ e.tag
     | .ok ts =>
       let ts' := if decBool tj then joinToks [] ts else ts
